@@ -3,7 +3,7 @@ NEXT Next
 CONSTANTS
  Confs <- ThoroughConfs
  MaxPartial = 2
- MaxFaults = 2
+ MaxFaults = 0
  DefChunk = 2
  ChunkLimit = 6
  RetryLimit = 10
